@@ -133,7 +133,7 @@ func inputClass(frame []byte) string {
 // C07: nothing crashes or hangs framing, decoding or display.
 func C07(r *ev.Run) {
 	thorough := r.Tier == "thorough"
-	r.Rule = "(a) all strings up to length 6/7 over the C01 alphabets and all sequences of <=2/3 menu segments; (b) for each of the 16 decodable types x every payload length 1..1023 (quick: 1..64 and every 7th after) x 14 deterministic payload patterns (zeros, ones, two alternating patterns, masks announcing 1x1, 2x2, 8x8, 64x1, 1x32, 9x8 (>64) and 64x32 cells, illegal timestamps, all-invalid markers, counter bytes): CRC-valid frame through HandleMessages' loop, GetMessage, Analyse, String twice, Copy+String at both log levels and the four decoders directly; (c) every well-formed message of a C04/C05 selection truncated at every payload byte and re-framed with a valid CRC; (d) every type 0..4095 with payload lengths {1,2,3,4,6,7,21,22,23}. Oracle: every call returns (no panic, bounded framing loop, 60 s stall watchdog). Non-trivial = CRC-valid frames of a decodable type; distinct = distinct frames"
+	r.Rule = "(a) all strings up to length 6/7 over the C01 alphabets and all sequences of <=2/3 menu segments; (b) for each of the 16 decodable types x every payload length 1..1023 (quick: 1..64 and every 7th after) x 14 deterministic payload patterns (zeros, ones, two alternating patterns, masks announcing 1x1, 2x2, 8x8, 64x1, 1x32, 9x8 (>64) and 64x32 cells, illegal timestamps, all-invalid markers, counter bytes): CRC-valid frame through HandleMessages' loop, GetMessage, Analyse, String twice, Copy+String at both log levels and the four decoders directly; (c) every well-formed message of a C04/C05 selection truncated at every payload byte and re-framed with a valid CRC; (d) every type 0..4095 with payload lengths {1,2,3,4,6,7,21,22,23}; (e) every ordered pair and triple from a 26-frame menu (MSM4/MSM7 of four constellations with early and late timestamps so that sequences cross week roll-overs, illegal timestamps, a message with cells, a short MSM, SBAS, 1005, text, an unknown type) through ONE handler at both log levels, every message decoded and displayed and all of them displayed again at the end. Oracle: every call returns (no panic, bounded framing loop, 60 s stall watchdog). Non-trivial = CRC-valid frames of a decodable type; distinct = distinct frames"
 	r.Assumptions = []string{"'bounded time' is enforced by an iteration bound on the framing loop plus a stall watchdog; a hang is reported only if it reproduces"}
 	var cur atomic.Value
 	var progress int64
@@ -314,6 +314,70 @@ func C07(r *ev.Run) {
 		}
 		r.Count(n, 0, n*12, n)
 	})
+	// (e) sequences through ONE handler: a crash may need state left behind by
+	// earlier frames (week roll-overs, illegal timestamps, caches)
+	var seqMenu [][]byte
+	for _, c := range []ref.Constellation{ref.GPS, ref.Galileo, ref.Glonass, ref.Beidou} {
+		for _, m7 := range []bool{false, true} {
+			lo, hi := uint(1000), uint(600000000)
+			if c == ref.Glonass {
+				lo, hi = 0<<27|5000, 6<<27|80000000
+			}
+			seqMenu = append(seqMenu, ref.HeaderOnlyMSM(c.MSMType(m7), lo), ref.HeaderOnlyMSM(c.MSMType(m7), hi))
+		}
+		seqMenu = append(seqMenu, ref.HeaderOnlyMSM(c.MSMType(true), 1<<30-1))
+	}
+	cellSpec := msmSpec{Type: 1077, SatMask: 0xA << 60, SigMask: 0x6 << 28, CellBits: "1011", Values: "counter", Scalars: "zero"}
+	ch, cs, cg := cellSpec.build()
+	seqMenu = append(seqMenu, ref.MSMFrame(ch, cs, cg, 0), ref.TypedFrame(1077, 3, nil), ref.TypedFrame(1107, 22, nil),
+		ref.Frame(ref.EncodeStation(&ref.Station{Type: 1005, ID: 1, X: 1, Y: 2, Z: 3}, false, 0)), []byte("$GPGGA\n"), ref.TypedFrame(4001, 5, nil))
+	seqDepth := 3
+	nm := len(seqMenu)
+	parallelFor(nm*nm, func(ij int) {
+		var n int64
+		for k := -1; k < nm; k++ {
+			idx := []int{ij / nm, ij % nm}
+			if k >= 0 {
+				if seqDepth < 3 {
+					continue
+				}
+				idx = append(idx, k)
+			}
+			for _, lvl := range []slog.Level{slog.LevelDebug, slog.LevelInfo} {
+				var where string
+				cl, site, p := guard(func() {
+					h := handler.New(frameStart, lvl)
+					var kept []*handler.Message
+					for step, fi := range idx {
+						where = fmt.Sprintf("message %d of the sequence", step+1)
+						m, _ := h.GetMessage(append([]byte{}, seqMenu[fi]...))
+						if m == nil {
+							continue
+						}
+						handler.Analyse(m)
+						_ = m.String()
+						kept = append(kept, m)
+					}
+					where = "re-display of earlier messages"
+					for _, m := range kept {
+						_ = m.String()
+					}
+				})
+				n++
+				if p {
+					var frames []string
+					for _, fi := range idx {
+						frames = append(frames, ev.FullHex(seqMenu[fi]))
+					}
+					r.Violate(ev.Violation{Fingerprint: fmt.Sprintf("C07 sequence panic %s@%s", cl, site), What: "panic at " + where + " of a frame sequence through one handler",
+						Case: map[string]interface{}{"frames_in_order": frames, "level": lvl.String()}})
+				}
+			}
+		}
+		r.Count(n, 0, n*3, n)
+		r.DistinctN += n
+	})
+	r.Extra["sequence_menu"] = nm
 	r.Sample(map[string]interface{}{"part": "b", "type": 1077, "payload_len": 3, "pattern": "mask9x8", "frame": ev.FullHex(ref.TypedFrame(1077, 3, patterns[9].fill))})
 	r.Sample(map[string]interface{}{"part": "c", "truncated_payload_of": "1077 8x8 counter", "cut": 40})
 	r.Extra["payload_lengths"] = len(lens)
